@@ -466,6 +466,16 @@ func init() {
 								m["bcc"] = pool[g.Intn(len(pool))]
 							}
 						}
+						if !O.HasProp(t, "ActivityStreamsBto") && g.Chance(1, 3) {
+							// a type without bto / bcc properties (a Link): the
+							// members are members all the same
+							m["bto"] = pool[g.Intn(len(pool))]
+							m["bcc"] = A{pool[0]}
+						}
+						if d > 0 && !O.HasProp(t, "ActivityStreamsObject") && g.Chance(1, 2) {
+							// an 'object' member on a type that has no such property
+							m["object"] = M{"type": "Note", "id": fmt.Sprintf("%s/things/below/%d", L, cnt), "bcc": pool[0]}
+						}
 						if d > 0 && O.HasProp(t, "ActivityStreamsObject") {
 							var objs A
 							for j, k := 0, g.Range(1, 2); j < k; j++ {
